@@ -92,6 +92,7 @@ def run(ctx: Ctx):
     lines = c03.judge_groups(ctx, groups, clauses=CLAUSES, kind="c12")
     ctx.nontrivial = {(ln["t"], tuple(ln["path"]), ln["method"]) for ln in lines
                       if ln["op"] == "match" and ln["r"]["kind"] == "redirect"}
+    c03.repo_test_calls(ctx, CLAUSES, "c12")
     ctx.notes["redirect_chains_2hops"] = sum(1 for ln in lines if ln["op"] == "match" and
                                              sum(1 for h in [ln] + ln["follow"] if h["r"]["kind"] == "redirect") >= 2)
 
